@@ -464,11 +464,17 @@ class BuiltinMixin(CallMixin):
             return smt.flat(a[0])
         if name in ("view_lo", "view_hi"):
             v = args[0]
+            if isinstance(v, Opt):
+                v = v.val
             if not isinstance(v, View):
                 raise EngineError(f"{name}() of a non-view {v!r}")
             return v.lo if name == "view_lo" else v.hi
         if name == "view_of":
             v, b = args[0], args[1]
+            if isinstance(v, Opt):
+                v = v.val
+            if isinstance(b, Opt):
+                b = b.val
             if isinstance(b, View):
                 b = b.base
             return z3.BoolVal(isinstance(v, View) and isinstance(b, Ref) and v.base == b)
